@@ -287,7 +287,7 @@ def decode_length(data: bytes):
     return data[0], 1
 
 
-def decode_value(body: bytes, afi: int, vpn: bool):
+def decode_value(body: bytes, afi: int, vpn: bool, trace=None):
     """Strict decode of the NLRI value (after the length).  Returns (rd hex|None, comps in wire order, flags)
     where flags names everything the RFC frowns upon but that still has one unambiguous reading:
       'order'      components not in strictly ascending type order (RFC 8955 4.2 calls that malformed)
@@ -296,6 +296,8 @@ def decode_value(body: bytes, afi: int, vpn: bool):
       'and-first'  AND bit on the first operator (MUST be treated as unset)
       'offset'     IPv6 prefix with offset >= length
       'host-bits'  prefix bits set beyond the length (irrelevant, RFC 4271 4.3)
+    `trace` (a dict) is told what was met before a Malformed is raised: trace['offset6'] = an IPv6 prefix
+    with a non-zero offset octet was read.
     """
     flags = set()
     rd = None
@@ -338,6 +340,8 @@ def decode_value(body: bytes, afi: int, vpn: bool):
                     raise Malformed('prefix-truncated')
                 offset = body[pos]
                 pos += 1
+                if offset and trace is not None:
+                    trace['offset6'] = True
                 if length > 128:
                     raise Malformed('prefix-length', str(length))
                 if offset >= length and not (offset == 0 and length == 0):
@@ -387,7 +391,7 @@ def decode_value(body: bytes, afi: int, vpn: bool):
     return rd, comps, flags
 
 
-def decode_nlri(data: bytes, afi: int, vpn: bool):
+def decode_nlri(data: bytes, afi: int, vpn: bool, trace=None):
     """One NLRI from the front of `data` -> (rd, comps, flags, rest)."""
     length, hdr = decode_length(data)
     if len(data) - hdr < length:
@@ -395,8 +399,22 @@ def decode_nlri(data: bytes, afi: int, vpn: bool):
     if hdr == 2 and length < 240:
         # allowed ("can be encoded as a single octet"), just not canonical
         pass
-    rd, comps, flags = decode_value(data[hdr : hdr + length], afi, vpn)
+    rd, comps, flags = decode_value(data[hdr : hdr + length], afi, vpn, trace)
     return rd, comps, flags, data[hdr + length :]
+
+
+def merge_repeated(comps):
+    """Components of the same type folded into one (operator lists concatenated in wire order): the only
+    sensible comparison form for input that repeats a type, which RFC 8955 4.2 calls malformed."""
+    out = []
+    index = {}
+    for ctype, payload in comps:
+        if ctype in PREFIX or ctype not in index:
+            index.setdefault(ctype, len(out))
+            out.append([ctype, list(payload) if ctype not in PREFIX else payload])
+        else:
+            out[index[ctype]][1].extend(payload)
+    return out
 
 
 def canonical(comps, afi: int, keep_first_and: bool = False):
